@@ -65,6 +65,8 @@ def cases(seed, tier):
     base["tracing"] = True
     ci = generic.main_index(base)
     base["script"][ci]["plan"] = build_plan(rng, base["devices"])
+    retarget = generic.second_suspender(base, ID, seed)
+    ci = generic.main_index(base)
     try:
         dry, dv, n = generic.dry_run(base)
     except RuntimeError:
@@ -86,7 +88,7 @@ def cases(seed, tier):
             inj = gen.gen_injections(rng, n, kinds=kinds, k=rng.choice([1, 1, 2, 3]))
             for i in inj:
                 if i["do"] == "trip":
-                    i["args"] = generic.trip_args(rng)
+                    i["args"] = retarget(generic.trip_args(rng))
             c["script"][ci]["inject"] = inj
             c["script"][ci]["decisions"] = [{"do": rng.choice(gen.DECISIONS)} for _ in range(3)]
         c["script"][ci]["settle"] = rng.choice(["idle", 0, 1, "idle"])
